@@ -185,7 +185,9 @@ Definition eval16 (c : case16) : verdict :=
         let dm := spread d in
         andl [obs_is zs_eqb d (lo_loads o); obs_is zs_eqb d (lo_loads_f o);
               obs_is Z.eqb dm (lo_max o); obs_is Z.eqb dm (lo_max_f o);
-              obs_is bits_eqb (imbalance_f64 k d) (lo_imb o); obs_is bits_eqb (imbalance_f64 k d) (lo_imb_f o);
+              (* the f64 value: bit-for-bit against SpecFloat is part of [corr] above; the PROPERTY
+                 is closeness to the rational closed form (an algebraically equivalent rewrite of
+                 the expression would change bits without breaking the property) *)
               obs_close k d (lo_imb o); obs_close k d (lo_imb_f o);
               if Nat.eqb (length targets) k then
                 obs_is Z.eqb (max_excess d targets) (lo_target o)
